@@ -18,6 +18,7 @@ type Controller struct {
 	hits    map[string]int            // how often each point was reached
 	gates   map[string]chan struct{}  // points currently held: goroutines reaching them park
 	arrived map[string]chan struct{}  // closed when a goroutine first parks at the point
+	departAt atomic.Int64             // unix nanos: goroutines released from a gate leave it together at this instant
 	seed    uint64
 	perturb atomic.Bool
 	level   int
@@ -65,6 +66,9 @@ func (c *Controller) Hold(point string) <-chan struct{} {
 func (c *Controller) Release(point string) {
 	c.mu.Lock()
 	if g, ok := c.gates[point]; ok {
+		// synchronised departure: everybody parked here spins until one common instant, so that goroutines released
+		// together really run the next statements at the same time (given idle cores)
+		c.departAt.Store(time.Now().Add(400 * time.Microsecond).UnixNano())
 		close(g)
 		delete(c.gates, point)
 	}
@@ -118,6 +122,10 @@ func (c *Controller) point(name string) {
 	c.mu.Unlock()
 	if g != nil {
 		<-g
+		if at := c.departAt.Load(); at != 0 {
+			for i := 0; i < 1<<22 && time.Now().UnixNano() < at; i++ {
+			}
+		}
 		return
 	}
 	if r != 0 {
